@@ -356,6 +356,23 @@ class _Hoist(ast.NodeTransformer):
         return node
 
 
+class _Flip(ast.NodeTransformer):
+    """`if c: A else: B` -> `if not c: B else: A` for plain if/else statements (no elif on either side)."""
+
+    def __init__(self):
+        self.n = 0
+
+    def visit_If(self, node):
+        self.generic_visit(node)
+        if node.orelse and not (len(node.orelse) == 1 and isinstance(node.orelse[0], ast.If)) \
+                and not (len(node.body) == 1 and isinstance(node.body[0], ast.If)):
+            par_is_elif = False
+            self.n += 1
+            node.test = ast.UnaryOp(op=ast.Not(), operand=node.test)
+            node.body, node.orelse = node.orelse, node.body
+        return node
+
+
 def rewrite_function(program: Program, qualname: str, kind: str) -> Program | None:
     fi = program.functions.get(qualname)
     if fi is None:
@@ -378,6 +395,21 @@ def rewrite_function(program: Program, qualname: str, kind: str) -> Program | No
         h = _Hoist()
         h.generic_visit(target)
         if h.n == 0:
+            return None
+    elif kind == "flip":
+        f = _Flip()
+        # only statement-level ifs that are not themselves the `elif` of another if
+        elifs = {id(n.orelse[0]) for n in ast.walk(target) if isinstance(n, ast.If) and len(n.orelse) == 1 and isinstance(n.orelse[0], ast.If)}
+
+        class _F(_Flip):
+            def visit_If(self2, node):
+                if id(node) in elifs:
+                    self2.generic_visit(node)
+                    return node
+                return _Flip.visit_If(self2, node)
+        f = _F()
+        f.visit(target)
+        if f.n == 0:
             return None
     ast.fix_missing_locations(tree)
     return program.with_source(fi.file, ast.unparse(tree))
@@ -408,7 +440,13 @@ def _job(job):
         tag = mid
     else:
         _, _, q, rk = job
-        var = rewrite_function(base, q, rk)
+        if rk == "reformat":
+            # the whole tree re-emitted from its syntax trees: layout, comments, parentheses and quoting all change
+            var = base
+            for path_, src_ in base.sources.items():
+                var = var.with_source(path_, ast.unparse(ast.parse(src_)))
+        else:
+            var = rewrite_function(base, q, rk)
         tag = f"{rk}:{q}"
         if var is None:
             return tag, kind, "anchor function missing", []
@@ -500,8 +538,9 @@ def run(ctx: Ctx) -> None:
         jobs.append(("mutant", prop, mid, path, old, new))
     targets = list(ANCHORS.get(prop, []))
     targets += sorted(q for q in ctx.analysed_functions if q not in targets and q in ctx.p.functions)     # everything the check looked at
+    jobs.append(("rewrite", prop, "<whole tree>", "reformat"))
     for q in targets:
-        for kind in ("rename", "aug", "pass", "hoist"):
+        for kind in ("rename", "aug", "pass", "hoist", "flip"):
             jobs.append(("rewrite", prop, q, kind))
     _BASE = ctx.p
     nproc = max(1, min(16, os.cpu_count() or 1, len(jobs)))
